@@ -522,6 +522,33 @@ def run_shard(job: dict[str, Any]) -> dict[str, Any]:
             if same_model and canon(model(edited), strict=True) != canon(mod, strict=True):
                 chk.skip(f"edit_recorded:{ek}:bytes_vs_dataclass_result_nullability_unspecified:{'hash_same' if eh == base_hash else 'hash_changed'}")
                 continue
+            # ---- I: the same edited surface declared as a Protocol that EXTENDS the original one, built
+            # after the original in this process: its identity must be that of the flat declaration
+            if {m["name"] for m in program["methods"]} <= {m["name"] for m in edited["methods"]}:
+                try:
+                    from typing import Protocol as _P
+
+                    proto_a, impl_a = build(program)
+                    RpcServer(proto_a, impl_a)  # the original is built (and anything cached) first
+                    proto_b, impl_b = build(edited)
+                    ns = {k: v for k, v in vars(proto_b).items() if not (k.startswith("__") and k not in ("__doc__", "__annotations__")) and not k.startswith("_abc") and k not in ("_is_protocol", "_is_runtime_protocol")}
+                    sub = type(proto_b.__name__, (proto_a, _P), ns)
+                    sub.__module__ = proto_b.__module__
+                    srv_sub = RpcServer(sub, impl_b)
+                    chk.case(f"hash_inherited_protocol:{ek}:{'irrelevant' if same_model else 'relevant'}")
+                    chk.hit("inherited_protocol_judged")
+                    if srv_sub.protocol_hash != eh:
+                        chk.violation(
+                            "hash_depends_on:protocol_inheritance",
+                            "a Protocol that extends another one (built earlier in the process) does not get the hash of the same surface declared flat",
+                            {**wit, "inherited_hash": srv_sub.protocol_hash},
+                        )
+                    want = {(m["name"]) for m in edited["methods"]}
+                    got = {n for n in srv_sub.methods if not n.startswith("__")}
+                    if got != want:
+                        chk.violation("describe_unfaithful:inherited_protocol_methods", f"methods of an extending Protocol: {sorted(got)} != {sorted(want)}", wit)
+                except TypeError as exc:
+                    chk.skip(f"inherited_protocol_not_constructible:{type(exc).__name__}")
             chk.case(f"hash_edit:{ek}:{mk}:{'irrelevant' if same_model else 'relevant'}")
             if same_model:
                 chk.hit("hash_equal_judged")
@@ -728,6 +755,7 @@ def version_leg(chk: Check, program: dict[str, Any], RpcServer: Any, RpcConnecti
 def main(tier: str, seed: int) -> int:
     chk = Check(PID, tier, seed, level=CATEGORY, rule=RULE)
     chk.require(
+        "inherited_protocol_judged",
         "described:pipe",
         "described:http",
         "described_params_accepted",
